@@ -102,3 +102,60 @@ package message
 //@     invariant [val] buf != nil ==> forall j int :: {encLen(options, j)} 0 <= j && j < #iter ==> bytesEqOld(old(buf)[encLen(options, j) + 1 + hs(delta(options, j)) + hs(len(options[j].Value)) : encLen(options, j) + optSize(options, j)], options[j].Value)
 //@     invariant [too-small] buf == nil && old(buf) != nil ==> length > len(old(buf))
 //@     decreases len(options) - #iter
+//
+// ---- option list decoding: reference parser (RFC 7252 section 3.1) ------------------------------
+//
+// The reference parser is written over the raw byte string d and the index k of a raw option:
+// rawStart(d,k) is the byte offset of raw option k, rawNum(d,k) the running option number after k
+// options. Documented leniencies: options with registry-illegal length or unknown format are
+// dropped, option number 0 is dropped.
+//
+//@ spec hsn(n int) int = ite(n == 13, 1, ite(n == 14, 2, 0))
+//@ spec extVal(d []byte, q int, n int) int = ite(n < 13, n, ite(n == 13, 13 + d[q], 269 + 256*d[q] + d[q+1]))
+//@ spec rawDelta(d []byte, p int) int = extVal(d, p + 1, d[p] / 16)
+//@ spec rawLen(d []byte, p int) int = extVal(d, p + 1 + hsn(d[p] / 16), d[p] % 16)
+//@ spec rawHdr(d []byte, p int) int = 1 + hsn(d[p] / 16) + hsn(d[p] % 16)
+//@ spec rawSize(d []byte, p int) int = rawHdr(d, p) + rawLen(d, p)
+//@ spec rec rawStart(d []byte, k int) int = ite(k <= 0, 0, rawStart(d, k-1) + rawSize(d, rawStart(d, k-1)))
+//@ spec rec rawNum(d []byte, k int) int = ite(k <= 0, 0, rawNum(d, k-1) + rawDelta(d, rawStart(d, k-1)))
+//@ spec terminal(d []byte, p int) bool = p >= len(d) || d[p] == 255
+//@ spec rawOKAt(d []byte, p int, num int) bool = 0 <= p && p < len(d) && d[p] != 255 && d[p] / 16 != 15 && d[p] % 16 != 15 && p + rawHdr(d, p) <= len(d) && p + rawSize(d, p) <= len(d) && num + rawDelta(d, p) <= 65535
+//@ spec rawOK(d []byte, k int) bool = rawOKAt(d, rawStart(d, k), rawNum(d, k))
+//@ spec rawValPos(d []byte, k int) int = rawStart(d, k) + rawHdr(d, rawStart(d, k))
+//@ spec kept(defs map[OptionID]OptionDef, id int, n int) bool = !present(defs, id) || (defs[id].ValueFormat != 0 && n >= defs[id].MinLen && n <= defs[id].MaxLen)
+//@ spec keptRaw(d []byte, defs map[OptionID]OptionDef, k int) bool = rawNum(d, k+1) != 0 && kept(defs, rawNum(d, k+1), rawLen(d, rawStart(d, k)))
+//@ spec rec nKept(d []byte, defs map[OptionID]OptionDef, k int) int = ite(k <= 0, 0, nKept(d, defs, k-1) + ite(keptRaw(d, defs, k-1), 1, 0))
+//
+//@ func (*Option) Unmarshal(data []byte, optionDefs map[OptionID]OptionDef, optionID OptionID) (n int, err error)
+//@   requires o != nil && len(data) < 4294967296
+//@   modifies o.ID, o.Value
+//@   ensures [consumes-all] err == nil && n == len(data)
+//@   ensures [kept] kept(optionDefs, optionID, len(data)) ==> o.ID == optionID && o.Value == data
+//@   ensures [dropped] !kept(optionDefs, optionID, len(data)) ==> o.ID == old(o.ID) && o.Value == old(o.Value)
+//
+//@ func (*Options) Unmarshal(data []byte, optionDefs map[OptionID]OptionDef) (n int, err error)
+//@   requires options != nil
+//@   modifies *options, (*options)[len(*options) : cap(*options)]
+//@   ensures [parsed] err == nil ==> (forall j int :: {rawStart(data, j)} 0 <= j && j < #n0 ==> rawOK(data, j)) && terminal(data, rawStart(data, #n0))
+//@   ensures [consumed] err == nil ==> n == rawStart(data, #n0) + ite(rawStart(data, #n0) < len(data), 1, 0) && n <= len(data)
+//@   ensures [rejects] err != nil && !errors.Is(err, ErrOptionsTooSmall) ==> (forall j int :: {rawStart(data, j)} 0 <= j && j < #n0 ==> rawOK(data, j)) && !terminal(data, rawStart(data, #n0)) && !rawOK(data, #n0)
+//@   ensures [too-small-prefix] errors.Is(err, ErrOptionsTooSmall) ==> (forall j int :: {rawStart(data, j)} 0 <= j && j < #n0 ==> rawOK(data, j))
+//@   ensures [too-small-ok] errors.Is(err, ErrOptionsTooSmall) ==> rawOK(data, #n0)
+//@   ensures [too-small-cap] errors.Is(err, ErrOptionsTooSmall) ==> cap(old(*options)) == len(old(*options)) + nKept(data, optionDefs, #n0)
+//@   ensures [n-err] err != nil ==> n == -1
+//@   ensures [count] err == nil ==> len(*options) == len(old(*options)) + nKept(data, optionDefs, #n0)
+//@   ensures [same-array] (*options)[0:0] == old(*options)[0:0] && cap(*options) == cap(old(*options))
+//@   ensures [fields] err == nil ==> forall j int :: {rawStart(data, j)} 0 <= j && j < #n0 && keptRaw(data, optionDefs, j) ==> 0 <= nKept(data, optionDefs, j) && nKept(data, optionDefs, j) < nKept(data, optionDefs, #n0) && (*options)[len(old(*options)) + nKept(data, optionDefs, j)].ID == rawNum(data, j+1) && (*options)[len(old(*options)) + nKept(data, optionDefs, j)].Value == data[rawValPos(data, j) : rawValPos(data, j) + rawLen(data, rawStart(data, j))]
+//@   ensures [prefix-kept] forall i int :: {(*options)[i].ID} 0 <= i && i < len(old(*options)) ==> (*options)[i] == old((*options)[i])
+//@   loop 0:
+//@     modifies *options, (*options)[len(*options) : cap(*options)]
+//@     invariant 0 <= #iter
+//@     invariant processed == rawStart(old(data), #iter) && prev == rawNum(old(data), #iter)
+//@     invariant 0 <= processed && processed <= len(old(data)) && 0 <= prev && prev <= 65535
+//@     invariant data == old(data)[processed:]
+//@     invariant forall j int :: {rawStart(old(data), j)} 0 <= j && j < #iter ==> rawOK(old(data), j)
+//@     invariant (*options)[0:0] == old(*options)[0:0] && cap(*options) == cap(old(*options))
+//@     invariant len(*options) == len(old(*options)) + nKept(old(data), optionDefs, #iter) && nKept(old(data), optionDefs, #iter) >= 0
+//@     invariant forall j int :: {rawStart(old(data), j)} 0 <= j && j < #iter && keptRaw(old(data), optionDefs, j) ==> 0 <= nKept(old(data), optionDefs, j) && nKept(old(data), optionDefs, j) < nKept(old(data), optionDefs, #iter) && (*options)[len(old(*options)) + nKept(old(data), optionDefs, j)].ID == rawNum(old(data), j+1) && (*options)[len(old(*options)) + nKept(old(data), optionDefs, j)].Value == old(data)[rawValPos(old(data), j) : rawValPos(old(data), j) + rawLen(old(data), rawStart(old(data), j))]
+//@     invariant forall i int :: {(*options)[i].ID} 0 <= i && i < len(old(*options)) ==> (*options)[i] == old((*options)[i])
+//@     decreases len(data)
